@@ -611,6 +611,13 @@ Proof.
       try (apply (cont_ok_same (s_kv s) c); auto; fail).
     unfold wrap_ok; simpl. split; [|split; [auto|split; auto]].
     intros Hh. destruct (W1 Hh) as [Hl [[Hx _]|[_ Hc']]]; [congruence|]. split; auto.
+  - (* LAbort *)
+    inv_nth H c Hc. destruct (c_pc c) eqn:Hpc; try discriminate.
+    unfold with_c in H; inversion H; subst s'; clear H.
+    assert (Hin : In c (s_cs s)) by (eapply nth_error_In; eauto). destruct (Hcs c Hin) as [Cc Wc].
+    apply (sys_ok_upd none_removed s i c); auto; try apply ext_refl; try (intros k []).
+    + apply cont_ok_unqueued; simpl; not_queued.
+    + apply (wrap_ok_same (s_kv s) c); auto; simpl; congruence.
 Qed.
 
 Theorem reachable_ok : forall s, reachable step sys_init s -> sys_ok s.
